@@ -41,7 +41,10 @@ def build_schema(groups, dynamic=False):
     attrs, persistent = [], []
 
     def add(key, field, virtual=False):
-        setattr(s, key, field)
+        if key.startswith("_"):
+            s[key] = field          # (by item assignment a key may begin with an underscore)
+        else:
+            setattr(s, key, field)
         attrs.append(key)
         if not virtual:
             persistent.append(key)
@@ -87,6 +90,7 @@ def build_schema(groups, dynamic=False):
     if "misc" in groups:
         add("m_any", cc.AnyField()); add("m_inc", cc.IncludeField())
         add("m_fraction", cc.NumberField(fractions.Fraction))      # a number class whose metaclass is not `type`
+        add("_token", cc.StringField())
         add("m_named", cc.IntField(name="Friendly Name"))        # a display name is not an identifier and not the key
         add("gr\u00f6\u00dfe", cc.IntField())                       # keys are identifiers, not necessarily ASCII
         add("\u540d\u524d", cc.StringField())
@@ -105,6 +109,9 @@ def _local_class():
 LocalMarker = _local_class()
 
 
+UserId = typing.NewType("UserId", int)
+
+
 class Colour(enum.Enum):
     RED = 1
     BLUE = 2
@@ -118,7 +125,9 @@ PARAM_ANN = {"none": "", "int": ": int", "class": ": Marker", "localclass": ": L
              # generics with several string (forward) references
              "two-forward": ": typing.Dict['Key', 'Value']", "callable-forward": ": typing.Callable[['V', 'V'], 'V']"}
 RET_ANN = {"absent": "", "int": " -> int", "none": " -> None", "strlit": " -> 'str'", "optional": " -> typing.Optional[int]",
-           "generic": " -> typing.Dict[str, int]", "class": " -> Marker", "localclass": " -> LocalMarker", "enum": " -> Colour", "abc": " -> collections.abc.Sequence", "two-forward": " -> typing.Tuple['A', 'B']"}
+           "generic": " -> typing.Dict[str, int]", "class": " -> Marker", "localclass": " -> LocalMarker", "enum": " -> Colour", "abc": " -> collections.abc.Sequence", "two-forward": " -> typing.Tuple['A', 'B']",
+           # objects the generator has no rendering for: the stub stays valid (the annotation may be left out)
+           "union604": " -> int | None", "newtype": " -> UserId"}
 
 
 def signatures(tier):
@@ -157,7 +166,7 @@ def make_func(sig, name="meth"):
     if sig["starkw"]:
         parts.append("**extra" + (ann if sig.get("starann") else ""))
     src = "def %s(%s)%s:\n    return 0\n" % (name, ", ".join(parts), RET_ANN[sig["rann"]])
-    ns = {"typing": typing, "Marker": Marker, "LocalMarker": LocalMarker, "Colour": Colour, "collections": collections, "fractions": fractions}
+    ns = {"typing": typing, "Marker": Marker, "LocalMarker": LocalMarker, "Colour": Colour, "collections": collections, "fractions": fractions, "UserId": UserId}
     exec(src, ns)
     return ns[name], src
 
@@ -388,9 +397,9 @@ def check_sig(ctx, sigs):
     funcs = {}
     for i, sig in enumerate(sigs):
         # method keys: plain, non-ASCII identifier, and a method field built explicitly with a display name
-        key = ["m%d", "m\u00e9thode%d", "shown%d"][i % 3] % i
+        key = ["m%d", "m\u00e9thode%d", "shown%d", "_under%d"][i % 4] % i
         f, src = make_func(sig, "m%d" % i)
-        if i % 3 == 2:
+        if i % 4 == 2:
             setattr(schema, key, cc.InstanceMethodField(f, name="Reload Settings %d" % i))
         else:
             cc.instance_method(schema, key)(f)
